@@ -18,6 +18,7 @@ import (
 
 	"github.com/yorkie-team/yorkie/pkg/document"
 	yjson "github.com/yorkie-team/yorkie/pkg/document/json"
+	"github.com/yorkie-team/yorkie/server/documents"
 
 	"verifmc/hist"
 	"verifmc/sched"
@@ -208,6 +209,74 @@ func sScenarios() []*sScenario {
 				return strings.Contains(e, "not attached") || strings.Contains(e, "not activated") || strings.Contains(e, "not found") || strings.Contains(e, "already")
 			},
 			Post: func(sw *sWorld) string { return sw.goneFromDocument(sw.clients[1]) }},
+		{Name: "attach;push(c1)||compact(normal) of an unattached document", Clients: 3, Attached: 2, Threshold: hist.Big, Interval: hist.Big,
+			Threads: func(sw *sWorld) []sThread {
+				// content, then everybody leaves: housekeeping may compact, unless an attach gets in first
+				sw.edit(sw.clients[0])
+				setupErr := sw.pushpull(sw.clients[0])
+				for _, c := range sw.clients[:2] {
+					if err := sw.detach(c); err != nil && setupErr == nil {
+						setupErr = err
+					}
+				}
+				sw.w.WaitBackground()
+				c1 := sw.clients[1]
+				close(c1.stop)
+				sw.newDoc(c1)
+				c1.delivered, c1.cps, c1.gotSnap = nil, nil, false
+				sw.pushed, sw.pushErr = 0, ""
+				sw.clock, sw.attachDone, sw.compactStart, sw.compacted = 0, 0, 0, false
+				return []sThread{
+					{"attach;push(c1)", func() error {
+						if setupErr != nil {
+							return setupErr
+						}
+						if err := sw.attach(c1); err != nil {
+							return err
+						}
+						sw.clock++
+						sw.attachDone = sw.clock
+						sw.edit(c1)
+						sw.pushed = sw.val
+						if err := sw.pushpull(c1); err != nil {
+							sw.pushErr = err.Error() // a refusal (stale generation) is legal; the oracle decides
+						}
+						return nil
+					}},
+					{"compact(normal)", func() error {
+						sw.clock++
+						sw.compactStart = sw.clock
+						di, err := documents.FindDocInfoByKey(sw.ctx, sw.w.BE, sw.proj, sw.docKey)
+						if err != nil {
+							return err
+						}
+						sw.compacted, err = documents.CompactDocument(sw.ctx, sw.w.BE, sw.proj, di, false)
+						return err
+					}},
+				}
+			},
+			StillAttached: func(sw *sWorld, res []string) []*sClient { return nil }, NoLogOracle: true,
+			LegalErr: func(th, e string) bool { return false },
+			Post: func(sw *sWorld) string {
+				if sw.compacted && sw.attachDone > 0 && sw.attachDone < sw.compactStart {
+					return "the document was compacted although a client had finished attaching before the compaction was requested"
+				}
+				// what a fresh client sees afterwards: the acknowledged edit, and only an acknowledged one
+				c2 := sw.clients[2]
+				if err := sw.attach(c2); err != nil {
+					return "fresh attach after the window: " + err.Error()
+				}
+				has := strings.Contains(c2.doc.Marshal(), fmt.Sprintf("%d]", sw.pushed)) || strings.Contains(c2.doc.Marshal(), fmt.Sprintf("%d,", sw.pushed))
+				switch {
+				case sw.pushErr == "" && !has:
+					return fmt.Sprintf("the server acknowledged c1's edit %d, a fresh client does not see it: %s", sw.pushed, c2.doc.Marshal())
+				case sw.pushErr != "" && has:
+					return fmt.Sprintf("c1's push was refused (%s) but its edit %d is in the document: %s", hist.NormErr(sw.pushErr), sw.pushed, c2.doc.Marshal())
+				case sw.pushErr != "" && !strings.Contains(sw.pushErr, "epoch"):
+					return "c1's push failed for another reason than a stale generation: " + hist.NormErr(sw.pushErr)
+				}
+				return ""
+			}},
 		{Name: "remove(c0)||pushpull(c1)", Clients: 2, Attached: 2, Threshold: hist.Big, Interval: hist.Big,
 			Threads: func(sw *sWorld) []sThread {
 				sw.edit(sw.clients[1])
@@ -411,6 +480,9 @@ func sCheckRun(prop string, filter func(name string) bool) func(env *Env) *Resul
 		for _, sc := range sScenarios() {
 			if !filter(sc.Name) {
 				continue
+			}
+			if f := os.Getenv("VERIF_FILTER"); f != "" && !strings.Contains(sc.Name, f) {
+				continue // development aid
 			}
 			n++
 			// scenarios are sharded over workers (with more workers than scenarios some stay idle)
